@@ -169,4 +169,19 @@ PROPS = {
         "trusted": ["std::io::BufWriter", "crossbeam channel FIFO", "process exit does not lose data already handed to write(2)"],
         "shards": 8,
     },
+    "C06": {
+        "level_text": "Kernel-checked multi-run stream theorems: for histories with any number of restarts (append on/off and buffer capacity per run, same rotation "
+                      "config, monotone clock across runs), every record of every run is on disk exactly once in logging order — Numbers and Timestamps "
+                      "(restart_preserves_rcurrent: without append the old rCURRENT is preserved as the newest rotated file under a fresh name, highest index+1 resp. "
+                      "collision-free stamp), NumbersDirect (full), TimestampsDirect (guarded: an appending run must find the newest stamp without .restart siblings; the "
+                      "unguarded statement is proved FALSE = known finding), non-rotating writer with append; no existing name is ever reused (fresh_names_*). "
+                      "Differential check on multi-run histories incl. same-second restarts; stream oracle across runs incl. the documented truncation.",
+        "level_note": "Theorems are without cleanup; restarts combined with cleanup/compression are validated by the correspondence check (C07 generator) only. "
+                      "Two genuine defects repaired (fix 1fbd892 gz index, fix bec99bb same-second truncation); one known finding (TimestampsDirect+append).",
+        "correspondence": "Flw model (initState from the directory as it is) vs new FileLogWriter instances on the same directory",
+        "rule": "1..4 restarts per history x append on/off per run x namings x criteria x forced rotations x restarts in the same second or 1s..1d later; "
+                "non-trivial = a restart or rotation happened",
+        "trusted": ["OS file system semantics", "virtual clock + creation-time table hooks"],
+        "assumptions": ["monotone clock across runs", "every process that ends has flushed (drop = shutdown)"],
+    },
 }
